@@ -219,11 +219,13 @@ def nested_src(shape, toks):
 LITS = []   # dicts
 
 
-def add(ty, form, shape, nest_shape, leaves, macro_src, dbg_src, scope="in", note=""):
+def add(ty, form, shape, nest_shape, leaves, macro_src, dbg_src, scope="in", note="", run=None, toks=()):
+    """`run`: the whole body of the run function when it is more than `obs(|| <macro>)` (impure items: prelude, literal, side-effect check);
+    `toks`: the source tokens when the harness is to parse them itself (`"<tok>".parse::<f32>()`, compared bit-wise)"""
     rust_ty, kind, _, _ = TYPES[ty]
     LITS.append(dict(ty=rust_ty, tykey=ty, kind=kind, form=form, shape=list(shape), nest_shape=list(nest_shape),
                      leaves=[l[1] for l in leaves], truth=[l[2] for l in leaves], macro=macro_src, dbg=dbg_src,
-                     scope=scope, note=note))
+                     scope=scope, note=note, run=run, toks=list(toks)))
 
 
 def add_nested(ty, shape, leaves=None, scope="in", note=""):
@@ -358,6 +360,367 @@ def build():
     add_nested("ListS", [13], [ls(lower[2 * i], upper[2 * i + 1]) for i in range(13)], note="letters as list items")
 
 
+# ---- round-5 streams (FRAMEWORK.md class 19): appended by `build_r5()` after everything above, so no id moves
+#
+# (a) f32 literals that need a double-rounding witness.  `array!(f32, tok)` formats `vec![tok]` (an f64 for an unsuffixed decimal
+#     token, an integer for an integer token) and parses the TEXT as f32: one rounding from the decimal text.  Going through an f64
+#     VALUE and narrowing it (`as f32`) rounds twice and differs exactly when the f64 nearest to the token is the midpoint m of two
+#     adjacent f32 values while the token itself is not m.  Tokens per pair (a, a+1) of adjacent f32 values, m = their midpoint
+#     (always an f64): the shortest decimal that reads back as m (what Debug prints for it - 17 digits, never m itself unless m is
+#     short), a 21-digit decimal between that one and m, the f64 neighbours of m printed with 17 digits, and for integers
+#     2^k + 2^(k-24) + 1 / 2^k + 3*2^(k-24) - 1 (k >= 54: the f64 nearest to them is the midpoint).  Expected elements are computed
+#     HERE with exact rational arithmetic (`f32_round_bits`), and again by the harness at run time as `"<tok>".parse::<f32>()`,
+#     compared bit-wise.
+# (b) literals whose items are impure expressions (`it.next().unwrap()`, `{ n += 1; n }`, `st.pop().unwrap()`, a counting closure):
+#     every item is evaluated exactly once, in reading order; the run function checks the counter's final value as well.
+from fractions import Fraction
+import math, struct
+from decimal import Decimal
+
+
+def f32_round_bits(fr):
+    """bits of the f32 nearest to the exact rational `fr` (ties to even, overflow to infinity)"""
+    fr = Fraction(fr)
+    sign = 0
+    if fr < 0: sign, fr = 0x80000000, -fr
+    if fr == 0: return sign
+    e = fr.numerator.bit_length() - fr.denominator.bit_length()
+    while Fraction(2) ** e > fr: e -= 1
+    while Fraction(2) ** (e + 1) <= fr: e += 1
+    e = max(e, -126)
+    q = fr / Fraction(2) ** (e - 23)
+    n = q.numerator // q.denominator
+    r = q - n
+    if r > Fraction(1, 2) or (r == Fraction(1, 2) and n % 2 == 1): n += 1
+    if n == 1 << 24: n, e = 1 << 23, e + 1
+    if e > 127: return sign | 0x7f800000
+    if n < 1 << 23: return sign | n                    # subnormal (e == -126) or zero
+    return sign | ((e + 127) << 23) | (n - (1 << 23))
+
+
+def f32_of_bits(b):
+    return struct.unpack('<f', struct.pack('<I', b))[0]
+
+
+def rust_float_text(neg, digits, e10, plain):
+    """Rust `{:?}` of a finite non-zero float from its shortest digits d1 d2 … (value d1.d2… * 10^e10); `plain`: 1e-4 <= |x| < 1e16,
+    decided in the float's own type"""
+    digits = digits.rstrip('0') or '0'
+    if plain:
+        if e10 >= 0:
+            ip = (digits[:e10 + 1]).ljust(e10 + 1, '0'); fp = digits[e10 + 1:] or '0'
+            t = ip + '.' + fp
+        else:
+            t = '0.' + '0' * (-e10 - 1) + digits
+    else:
+        t = digits[0] + ('.' + digits[1:] if len(digits) > 1 else '') + 'e' + str(e10)
+    return ('-' if neg else '') + t
+
+
+def rust_f64_debug(x):
+    if x != x: return 'NaN'
+    if x in (math.inf, -math.inf): return 'inf' if x > 0 else '-inf'
+    if x == 0: return '-0.0' if math.copysign(1, x) < 0 else '0.0'
+    sg, dg, ex = Decimal(repr(abs(x))).as_tuple()
+    digits = ''.join(map(str, dg))
+    return rust_float_text(x < 0, digits, ex + len(digits) - 1, 1e-4 <= abs(x) < 1e16)
+
+
+def ambiguous_repr(x):
+    """the exact value of the f64 `x` lies exactly halfway between two decimals of the shortest length that both read back as `x`
+    (Python prints the even one, Rust the other): such values are not used"""
+    import decimal
+    d = Decimal(abs(x)); p = len(Decimal(repr(abs(x))).as_tuple().digits)
+    with decimal.localcontext() as c:
+        c.prec = p
+        c.rounding = decimal.ROUND_FLOOR; lo = +d
+        c.rounding = decimal.ROUND_CEILING; hi = +d
+    return lo != hi and float(lo) == abs(x) and float(hi) == abs(x) and d - lo == hi - d
+
+
+def rust_f32_debug(bits):
+    neg = bool(bits & 0x80000000); mag = bits & 0x7fffffff
+    if mag == 0x7f800000: return '-inf' if neg else 'inf'
+    if mag > 0x7f800000: return 'NaN'
+    if mag == 0: return '-0.0' if neg else '0.0'
+    v = f32_of_bits(mag)
+    for p in range(0, 12):
+        t = '%.*e' % (p, v)
+        if f32_round_bits(Fraction(t)) == mag:
+            mant, ex = t.split('e')
+            return rust_float_text(neg, mant.replace('.', ''), int(ex), 0x38d1b717 <= mag < 0x5a0e1bca)      # 1e-4f32 <= |x| < 1e16f32
+    raise AssertionError(bits)
+
+
+def float_token(t):
+    """a decimal text as a Rust float literal"""
+    t = t.replace('e+', 'e')
+    return t if ('.' in t or 'e' in t) else t + '.0'
+
+
+def f32_leaf(tok, scope_in=True):
+    """(source token, Debug text of the f64 item, Debug text of the f32 nearest to the TOKEN)"""
+    body = tok[:-3] if tok.endswith('f32') else tok
+    x = float(body)
+    assert not ambiguous_repr(x), tok
+    want = f32_round_bits(Fraction(body))
+    if tok.endswith('f32'):                       # rustc itself rounds the token to f32; Debug prints the shortest f32 text
+        d = rust_f32_debug(want)
+        return (tok, d, d)
+    via_text = f32_round_bits(Fraction(repr(x)))  # what the macro does: shortest text of the f64, parsed as f32
+    assert (via_text == want) == scope_in, (tok, hex(via_text), hex(want))
+    return (tok, rust_f64_debug(x), rust_f32_debug(want))
+
+
+F32_PAIRS = [0x3f800000, 0x3f800001, 0x3f7fffff, 0x3f7ffffe, 0x3fc00000, 0x3fffffff, 0x40490fdb, 0x402df854, 0x3dcccccd, 0x3dcccccc, 0x4b7fffff, 0x4b800000,
+             0x4b800001, 0x00000000, 0x00000001, 0x00000002, 0x007fffff, 0x00800000, 0x00800001, 0x7f7ffffe, 0x7f7fffff, 0x7f000000, 0x5d800000, 0x5d800001,
+             0x1e3ce508, 0x1e3ce509, 0x3a83126f, 0x38d1b717, 0x358637bd, 0x501502f9, 0x58635fa9, 0x6c4ecb8f, 0x0da24260, 0x2b8cbccc, 0x42f6e979, 0x47c35000]
+_x = 0x2545f491
+for _ in range(28):                      # a fixed pseudo-random tail over the whole exponent range (subnormals included)
+    _x = (_x * 1103515245 + 12345) % (1 << 31)
+    F32_PAIRS.append(_x % 0x7f7fffff)
+
+
+def f32_tokens():
+    """[(token, in_scope, witness)]: witness = narrowing the f64 nearest to the token gives another f32 than the token read as f32"""
+    out = []
+    for i, a in enumerate(F32_PAIRS):
+        lo = Fraction(f32_of_bits(a))
+        hi = Fraction(f32_of_bits(a + 1)) if a + 1 < 0x7f800000 else Fraction(2) ** 128
+        m = (lo + hi) / 2
+        mf = float(m)
+        assert Fraction(mf) == m
+        neg = '-' if i % 5 == 3 else ''
+        cands = []
+        s = repr(mf)
+        cands.append(s)                                                    # the shortest text of m
+        if Fraction(s) != m:
+            # a longer decimal on the same side of m as the shortest text, halfway between the two
+            mid = (Fraction(s) + m) / 2
+            dm = Decimal(mid.numerator) / Decimal(mid.denominator)
+            t = '%.21e' % dm if False else format(dm, '.20e')
+            if (Fraction(t) > m) == (Fraction(s) > m) and Fraction(t) != m and float(t) == mf: cands.append(t)
+        cands.append('%.17g' % math.nextafter(mf, math.inf))
+        cands.append('%.17g' % math.nextafter(mf, -math.inf))
+        for t in cands:
+            tok = float_token(t)
+            x = float(tok)
+            if x in (math.inf, -math.inf) or ambiguous_repr(x): continue
+            want = f32_round_bits(Fraction(tok))
+            narrowed = f32_round_bits(Fraction(x))
+            out.append((neg + tok, True, want != narrowed))
+    return out
+
+
+def f32_int_tokens(suffix, ks):
+    """2^k + 2^(k-24) + 1 (just above the midpoint of 2^k and its successor, an even / odd pair) and 2^k + 3*2^(k-24) - 1 (just below
+    the midpoint of the next, odd / even, pair)"""
+    out = []
+    for k in ks:
+        for v in ((1 << k) + (1 << (k - 24)) + 1, (1 << k) + 3 * (1 << (k - 24)) - 1):
+            out.append(v)
+    return out
+
+
+def add_f32_literals():
+    toks = f32_tokens()
+    n_wit = sum(1 for t in toks if t[2])
+    leaves = [f32_leaf(t[0]) for t in toks]
+    # nested, multi-argument and flat forms, ranks 1..3; every token occurs in at least one literal
+    plan = [("nested", [6]), ("nested", [2, 5]), ("nested", [2, 2, 3]), ("args", 7), ("flat", 6), ("nested", [1, 9]), ("nested", [3, 1, 3]), ("nested", [11]),
+            ("nested", [4, 3]), ("args", 5), ("flat", 9), ("nested", [2, 3, 2]), ("nested", [7, 1]), ("nested", [13]), ("nested", [2, 8]), ("nested", [3, 5])]
+    pos = 0; pi = 0
+    while pos < len(leaves):
+        form, sh = plan[pi % len(plan)]; pi += 1
+        n = sh if isinstance(sh, int) else prod(sh)
+        chunk = [leaves[(pos + j) % len(leaves)] for j in range(n)]
+        tk = [l[0] for l in chunk]
+        note = "f32 items next to the midpoint of two adjacent f32 values (one rounding from the decimal text, never decimal -> f64 -> f32)"
+        if form == "nested":
+            src = nested_src(sh, tk)
+            add("f32", "nested", sh, [1] + list(sh), chunk, f"array!(f32, {src})", f"vec![{src},]", note=note, toks=tk)
+        elif form == "args":
+            add("f32", "args", [n], [n], chunk, f"array!(f32, {', '.join(tk)})", "vec![" + "".join(f"{t}," for t in tk) + "]", note=note, toks=tk)
+        else:
+            add("f32", "flat", [n], [1, n], chunk, f"array_flat!(f32, {', '.join(tk)})", "vec![vec![" + "".join(f"{t}," for t in tk) + "],]", note=note, toks=tk)
+        pos += n
+    # the same with the f32 suffix on every token (rustc rounds once; Debug prints the shortest f32 text)
+    sfx = [f32_leaf((t[0] + 'f32')) for t in toks if t[2]][:12]
+    tk = [l[0] for l in sfx]; src = nested_src([3, 4], tk)
+    add("f32", "nested", [3, 4], [1, 3, 4], sfx, f"array!(f32, {src})", f"vec![{src},]", note="f32-suffixed items next to a midpoint", toks=tk)
+    # integer items: unsuffixed (i32), i64, u64, u128, i128 (negative)
+    def ints(vals, suffix, shape, neg=False):
+        lv = []
+        for v in vals:
+            v = -v if neg else v
+            lv.append((f"{v}{suffix}", str(v), rust_f32_debug(f32_round_bits(Fraction(v)))))
+        tk = [l[0] for l in lv]; src = nested_src(shape, tk)
+        assert prod(shape) == len(lv)
+        add("f32", "nested", shape, [1] + list(shape), lv, f"array!(f32, {src})", f"vec![{src},]",
+            note="integer items 2^k + 2^(k-24) + 1 and 2^k + 3*2^(k-24) - 1 read as f32 (k >= 54: the nearest f64 is the midpoint of two f32 values)", toks=tk)
+    ints(f32_int_tokens("", range(24, 31)), "", [2, 7])
+    ints(f32_int_tokens("i64", range(31, 47)), "i64", [4, 8])
+    ints(f32_int_tokens("i64", range(47, 63)), "i64", [2, 2, 8])
+    ints(f32_int_tokens("i64", (53, 54, 55, 60, 61, 62)), "i64", [12], neg=True)
+    ints(f32_int_tokens("u64", (54, 60, 63)), "u64", [6])
+    ints(f32_int_tokens("u128", (64, 65, 80, 100, 126, 127)) + [(1 << 128) - 1, (1 << 128) - (1 << 103) - 1, (1 << 128) - (1 << 103) + 1, (1 << 60) + (1 << 36) + 1], "u128", [2, 8])
+    ints(f32_int_tokens("i128", (64, 90, 126)), "i128", [3, 2], neg=True)
+    fl = [(f"{v}i64", str(v), rust_f32_debug(f32_round_bits(Fraction(v)))) for v in f32_int_tokens("i64", (54, 57, 62))]
+    tk = [l[0] for l in fl]
+    add("f32", "flat", [6], [1, 6], fl, f"array_flat!(f32, {', '.join(tk)})", "vec![vec![" + "".join(f"{t}," for t in tk) + "],]", note="integer items next to a midpoint, flat form", toks=tk)
+    # out of scope, recorded: a token on the OTHER side of the midpoint than the shortest text of its f64 value.  The item expression is
+    # an f64 (Rust types the token before the macro sees anything) whose value is the midpoint itself; no f32 is nearest to it
+    for a in (0x3f800000, 0x40490fdb):
+        m = (Fraction(f32_of_bits(a)) + Fraction(f32_of_bits(a + 1))) / 2
+        mf = float(m); s = Fraction(repr(mf))
+        other = m - (s - m) / 2
+        t = format(Decimal(other.numerator) / Decimal(other.denominator), '.19e')
+        assert float(t) == mf and (Fraction(t) > m) != (s > m)
+        lf = f32_leaf(float_token(t), scope_in=False)
+        add("f32", "nested", [1], [1, 1], [lf], f"array!(f32, [{lf[0]}])", f"vec![[{lf[0]}],]", scope="out",
+            note="an unsuffixed token whose f64 value is the midpoint of two f32 values and whose shortest text lies on the other side of it: the item is that f64, Debug prints the shortest text")
+    return len(toks), n_wit
+
+
+# ---- impure items: sources of values.  Each returns (prelude, [impure item expression], [pure leaf (token, Debug, truth)], final check)
+
+def imp_source(ty, kind, n):
+    lf = TYPES[ty][3]
+    def from_leaves(ls): return ls
+    if kind == "pop":
+        extra = n + 1
+        ls = [lf(k) for k in range(n + extra)]
+        stack = ", ".join(l[0] for l in reversed(ls))
+        return (f"let mut st = vec![{stack}];", ["st.pop().unwrap()"] * n, ls[:n], f"st.len() == {extra}")
+    if kind == "count":
+        ls = [lf(k) for k in range(n)]
+        argty = {"String": "&'static str", "f64": "f64"}.get(ty, TYPES[ty][0])
+        return (f"let mut calls = 0usize; let mut f = |v: {argty}| {{ calls += 1; v }};", [f"f({l[0]})" for l in ls], ls, f"calls == {n}")
+    if kind == "iter":
+        if ty in ("i32", "i64", "u8"):
+            start = {"i32": -1, "i64": 9007199254740991, "u8": 247}[ty]
+            ls = [(f"{start + k}{ty}", str(start + k), str(start + k)) for k in range(n)]
+            rng = f"({start}{ty}..)" if start < 0 else f"{start}{ty}.."
+            return (f"let mut it = {rng};", ["it.next().unwrap()"] * n, ls, f"it.next() == Some({start + n})")
+        if ty == "f64":
+            vs = [(k - 1.0) * 0.75 for k in range(n)]
+            ls = [(f"{rust_f64_debug(v)}f64", rust_f64_debug(v), rust_f64_debug(v)) for v in vs]
+            return ("let mut it = (0..).map(|k: i32| (k as f64 - 1.0) * 0.75);", ["it.next().unwrap()"] * n, ls, f"it.next() == Some(({n} as f64 - 1.0) * 0.75)")
+        if ty == "char":
+            ls = [(rust_char_debug(chr(ord('c') + 3 * k)),) * 3 for k in range(n)]
+            return ("let mut it = ('c'..='z').step_by(3);", ["it.next().unwrap()"] * n, ls, f"it.next() == Some({rust_char_debug(chr(ord('c') + 3 * n))})")
+        ls = [lf(k + 2) for k in range(2 * n + 2)]
+        return (f"let mut it = [{', '.join(l[0] for l in ls)}].into_iter();", ["it.next().unwrap()"] * n, ls[:n], f"it.len() == {n + 2}")
+    if kind == "block":
+        if ty == "i32":
+            ls = [(str(3 * k - 7),) * 3 for k in range(1, n + 1)]
+            return ("let mut n = 0i32;", ["{ n += 1; n * 3 - 7 }"] * n, ls, f"n == {n}")
+        if ty == "i64":
+            ls = [(f"{k * 4294967296 - 5}i64", str(k * 4294967296 - 5), str(k * 4294967296 - 5)) for k in range(1, n + 1)]
+            return ("let mut n = 0i64;", ["{ n += 1; n * 4294967296 - 5 }"] * n, ls, f"n == {n}")
+        if ty == "u8":
+            ls = [(f"{k * 37 % 256}u8", str(k * 37 % 256), str(k * 37 % 256)) for k in range(1, n + 1)]
+            return ("let mut n = 0u8; let mut tick = || { n += 1; n.wrapping_mul(37) };", ["tick()"] * n, ls, f"n == {n}")
+        if ty == "f64":
+            vs = [k * -0.5 + 1.0 for k in range(1, n + 1)]
+            ls = [(f"{rust_f64_debug(v)}f64", rust_f64_debug(v), rust_f64_debug(v)) for v in vs]
+            return ("let mut n = 0i32;", ["{ n += 1; n as f64 * -0.5 + 1.0 }"] * n, ls, f"n == {n}")
+        if ty == "bool":
+            ls = [(("true" if (k * k + k // 2) % 3 != 1 else "false"),) * 3 for k in range(1, n + 1)]
+            return ("let mut n = 0i32;", ["{ n += 1; (n * n + n / 2) % 3 != 1 }"] * n, ls, f"n == {n}")
+        if ty == "char":
+            ls = [(rust_char_debug(chr(ord('a') + k * 5 % 26)),) * 3 for k in range(1, n + 1)]
+            return ("let mut n = 0u8;", ["{ n += 1; (b'a' + n * 5 % 26) as char }"] * n, ls, f"n == {n}")
+        if ty == "String":
+            ls = [(rust_str_debug(f"w {k}"),) * 3 for k in range(1, n + 1)]
+            return ("let mut n = 0i32;", ['{ n += 1; format!("w {n}") }'] * n, ls, f"n == {n}")
+    if kind == "typed":
+        q = rust_str_debug
+        if ty == "T2":
+            ls = [(f"({k}, {rust_f64_debug(0.5 * k)})", f"({k}, {rust_f64_debug(0.5 * k)})", f"Tuple2({k}, {rust_f64_debug(0.5 * k)})") for k in range(1, n + 1)]
+            return ("let mut it = 1i32..; let mut x = 0.0f64;", ["(it.next().unwrap(), { x += 0.5; x })"] * n, ls, f"it.next() == Some({n + 1}) && x == {rust_f64_debug(0.5 * n)}")
+        if ty == "T3":
+            fs = [leaf_f64(k)[0] for k in range(2 * n + 1)]
+            ls = []
+            for k in range(1, n + 1):
+                b = "true" if k % 2 == 1 else "false"
+                t = f"({k}, {b}, {fs[k - 1]})"
+                ls.append((t, t, "Tuple3" + t))
+            return (f"let mut it = 1i32..; let mut b = false; let mut st = vec![{', '.join(reversed(fs))}];", ["(it.next().unwrap(), { b = !b; b }, st.pop().unwrap())"] * n, ls,
+                    f"it.next() == Some({n + 1}) && st.len() == {n + 1}")
+        if ty == "List":
+            items, ls, c = [], [], 1
+            for j in range(n):
+                ln = 1 + j % 3
+                items.append("vec![" + ", ".join(["it.next().unwrap()"] * ln) + "]")
+                body = ", ".join(str(c + i) for i in range(ln)); c += ln
+                ls.append((f"vec![{body}]", f"[{body}]", f"List([{body}])"))
+            return ("let mut it = 1i32..;", items, ls, f"it.next() == Some({c})")
+        if ty == "T2s":
+            ws = [WORDS[k % 6] + str(k) for k in range(2 * n + 1)]
+            ls = []
+            for k in range(1, n + 1):
+                a, b = ws[k - 1], f"w{k}"
+                ls.append((f"({q(a)}, {q(b)})", f"({q(a)}, {q(b)})", f"Tuple2({q(a)}, {q(b)})"))
+            return (f"let mut st = vec![{', '.join(q(w) for w in reversed(ws))}]; let mut n = 0i32;", ['(st.pop().unwrap(), { n += 1; format!("w{n}") })'] * n, ls, f"n == {n} && st.len() == {n + 1}")
+        if ty == "ListS":
+            ws = [WORDS[k % 6] + str(k) for k in range(3 * n + 2)]
+            items, ls, c = [], [], 0
+            for j in range(n):
+                ln = 1 + (j + 1) % 2
+                items.append("vec![" + ", ".join(["st.pop().unwrap()"] * ln) + "]")
+                body = ", ".join(q(ws[c + i]) for i in range(ln)); c += ln
+                ls.append((f"vec![{body}]", f"[{body}]", f"List([{body}])"))
+            return (f"let mut st = vec![{', '.join(q(w) for w in reversed(ws))}];", items, ls, f"st.len() == {len(ws) - c}")
+    raise KeyError((ty, kind))
+
+
+def add_impure(ty, kind, form, sh):
+    rust_ty, fe, wraps, _ = TYPES[ty]
+    n = sh if isinstance(sh, int) else prod(sh)
+    prelude, items, leaves, final = imp_source(ty, kind, n)
+    pure = [l[0] for l in leaves]
+    if form == "nested":
+        isrc, psrc = nested_src(sh, items), nested_src(sh, pure)
+        macro = f"array!({rust_ty}, {isrc})"
+        if wraps == 2: dbg = f"vec![vec![{psrc}],]"
+        elif fe == "list": dbg = f"vec![{psrc}]"
+        else: dbg = f"vec![{psrc},]"
+        shape, nest_shape = list(sh), [1] * wraps + list(sh)
+    elif form == "args":
+        macro = f"array!({rust_ty}, {', '.join(items)})"
+        if wraps == 2: dbg = "vec![" + "".join(f"vec![{t}]," for t in pure) + "]"; nest_shape = [n, 1]
+        else: dbg = "vec![" + "".join(f"{t}," for t in pure) + "]"; nest_shape = [n]
+        shape = [n]
+    else:
+        macro = f"array_flat!({rust_ty}, {', '.join(items)})"
+        if fe == "generic": dbg = "vec![vec![" + "".join(f"{t}," for t in pure) + "],]"; nest_shape = [1, n]
+        else: dbg = "vec![" + "".join(f"vec![{t}]," for t in pure) + "]"; nest_shape = [n, 1]
+        shape = [n]
+    run = f"{prelude} let o = obs(|| {macro}); once(o, {final}, {rs_str(final)})"
+    add(ty, form, shape, nest_shape, leaves, f"{prelude} {macro}", dbg, note=f"impure items ({kind}): each evaluated exactly once, in reading order; afterwards {final}", run=run)
+
+
+def build_r5():
+    n_tok, n_wit = add_f32_literals()
+    n0 = len(LITS)
+    shapes3 = ([3], [2, 2], [2, 1, 2], [4], [1, 3], [2, 2, 2], [2], [3, 2], [1, 2, 3])
+    for ti, ty in enumerate(("i32", "i64", "u8", "f64", "bool", "char", "String")):
+        kinds = ["iter", "block", "pop"]
+        for ki, kind in enumerate(kinds):
+            add_impure(ty, kind, "nested", shapes3[(ti + ki) % 3 + 3 * ki])          # every kind at ranks 1, 2, 3 across the types
+        add_impure(ty, kinds[ti % 3], "args", 3)
+        add_impure(ty, kinds[(ti + 1) % 3], "flat", 4)
+        add_impure(ty, kinds[(ti + 2) % 3], "flat", 1)
+    for ty in ("i32", "f64", "String", "u8"):
+        add_impure(ty, "count", "nested", [2, 2]); add_impure(ty, "count", "flat", 3)
+    for ti, ty in enumerate(("T2", "T3", "List", "T2s", "ListS")):
+        for sh in ([3], [2, 2], [2, 1, 2]): add_impure(ty, "typed", "nested", sh)
+        if ty not in ("List", "ListS"): add_impure(ty, "typed", "args", 3)
+        add_impure(ty, "typed", "flat", 2 + ti % 2)
+    return n_tok, n_wit, len(LITS) - n0
+
+
 # ---- macros that stand for functions: (macro expression, function expression, element type)
 CTORS = []
 
@@ -439,6 +802,44 @@ def build_ctors():
     c("Tuple3<String, i32, f64>", 'array_flat!(Tuple3<String, i32, f64>, ("new york", 1, 2.5), ("", -2, -0.0))', 'Array::<Tuple3<String, i32, f64>>::flat(vec![Tuple3("new york".to_string(), 1, 2.5), Tuple3(String::new(), -2, -0.0)])')
 
 
+def build_ctors_r5():
+    """round 5: impure arguments of the single / constructor macros (evaluated exactly once, in reading order), and f32 items next to a
+    midpoint through `array_single!` / `array_flat!` next to the functions (where rustc itself reads the token as f32)"""
+    def ci(ty, prelude, mac, final, fun):
+        CTORS.append((ty, f"{prelude} {mac}", fun, f"{{ {prelude} let o = obs::<{ty}, _>(|| {mac}); once(o, {final}, {rs_str(final)}) }}"))
+    ci("i32", "let mut it = 5i32..;", "array_single!(i32, it.next().unwrap())", "it.next() == Some(6)", "Array::<i32>::single(5)")
+    ci("i64", "let mut n = 0i64;", "array_single!(i64, { n += 1; n * 9007199254740993 })", "n == 1", "Array::<i64>::single(9007199254740993)")
+    ci("u8", "let mut n = 254u8; let mut tick = || { n += 1; n };", "array_single!(u8, tick())", "n == 255", "Array::<u8>::single(255)")
+    ci("f64", "let mut st = vec![1.5, -0.0];", "array_single!(f64, st.pop().unwrap())", "st.len() == 1", "Array::<f64>::single(-0.0)")
+    ci("bool", "let mut b = false;", "array_single!(bool, { b = !b; b })", "b", "Array::<bool>::single(true)")
+    ci("char", "let mut it = ('x'..='z');", "array_single!(char, it.next().unwrap())", "it.next() == Some('y')", "Array::<char>::single('x')")
+    ci("String", 'let mut st = vec!["a", "b c"];', "array_single!(String, st.pop().unwrap())", "st.len() == 1", 'Array::<String>::single("b c".to_string())')
+    ci("Tuple2<i32, f64>", "let mut it = 1i32..; let mut x = 0.0f64;", "array_single!(Tuple2<i32, f64>, (it.next().unwrap(), { x += 0.5; x }))", "it.next() == Some(2) && x == 0.5",
+       "Array::<Tuple2<i32, f64>>::single(Tuple2(1, 0.5))")
+    ci("Tuple3<i32, bool, f64>", "let mut it = 1i32..; let mut b = false; let mut st = vec![2.5, -1.5];", "array_single!(Tuple3<i32, bool, f64>, (it.next().unwrap(), { b = !b; b }, st.pop().unwrap()))",
+       "it.next() == Some(2) && b && st.len() == 1", "Array::<Tuple3<i32, bool, f64>>::single(Tuple3(1, true, -1.5))")
+    ci("List<i32>", "let mut it = 1i32..;", "array_single!(List<i32>, vec![it.next().unwrap(), it.next().unwrap(), it.next().unwrap()])", "it.next() == Some(4)",
+       "Array::<List<i32>>::single(List(vec![1, 2, 3]))")
+    for ty in ("i32", "f64", "u8"):
+        ci(ty, "let mut it = 2usize..;", f"array_zeros!({ty}, it.next().unwrap(), it.next().unwrap())", "it.next() == Some(4)", f"Array::<{ty}>::zeros(vec![2, 3])")
+        ci(ty, "let mut it = 2usize..;", f"array_ones!({ty}, it.next().unwrap(), it.next().unwrap(), it.next().unwrap())", "it.next() == Some(5)", f"Array::<{ty}>::ones(vec![2, 3, 4])")
+        ci(ty, "let mut n = 0usize;", f"array_full!({ty}, {{ n += 1; vec![n, n + 1] }}, {{ n += 1; n as {ty} }})", "n == 2", f"Array::<{ty}>::full(vec![1, 2], 2 as {ty})")
+        ci(ty, "let mut it = 2usize..;", f"array_eye!({ty}, it.next().unwrap())", "it.next() == Some(3)", f"Array::<{ty}>::eye(2, Some(2), Some(0))")
+        ci(ty, "let mut it = 2usize..;", f"array_eye!({ty}, it.next().unwrap(), it.next().unwrap())", "it.next() == Some(4)", f"Array::<{ty}>::eye(2, Some(3), Some(0))")
+        ci(ty, "let mut it = 2usize..; let mut k = 0usize;", f"array_eye!({ty}, it.next().unwrap(), it.next().unwrap(), {{ k += 1; k }})", "it.next() == Some(4) && k == 1", f"Array::<{ty}>::eye(2, Some(3), Some(1))")
+        ci(ty, "let mut it = 3usize..;", f"array_identity!({ty}, it.next().unwrap())", "it.next() == Some(4)", f"Array::<{ty}>::identity(3)")
+        ci(ty, "let mut n = 0i32;", f"array_arange!({ty}, {{ n += 1; n as {ty} }}, {{ n += 1; (n * 5) as {ty} }})", "n == 2", f"Array::<{ty}>::arange(1 as {ty}, 10 as {ty}, None)")
+        ci(ty, "let mut n = 0i32;", f"array_arange!({ty}, {{ n += 1; n as {ty} }}, {{ n += 1; (n * 5) as {ty} }}, {{ n += 1; n as {ty} }})", "n == 3", f"Array::<{ty}>::arange(1 as {ty}, 10 as {ty}, Some(3 as {ty}))")
+    wit = [t[0] for t in f32_tokens() if t[2]]
+    for t in wit[:10]:
+        CTORS.append(("f32", f"array_single!(f32, {t})", f"Array::<f32>::single({t})"))
+    for i in range(0, 12, 4):
+        ts = ", ".join(wit[10 + i:14 + i])
+        CTORS.append(("f32", f"array_flat!(f32, {ts})", f"Array::<f32>::flat(vec![{ts}])"))
+    for v in ((1 << 60) + (1 << 36) + 1, (1 << 54) + 3 * (1 << 30) - 1, -((1 << 62) + (1 << 38) + 1)):
+        CTORS.append(("f32", f"array_single!(f32, {v}i64)", f"Array::<f32>::single({v}i64 as f32)"))
+
+
 def rs_str(s):
     return '"' + s.replace('\\', '\\\\').replace('"', '\\"').replace('\n', '\\n').replace('\t', '\\t').replace('\r', '\\r').replace('\0', '\\0') + '"'
 
@@ -453,6 +854,7 @@ def rs_strs(xs):
 
 def main():
     build(); build_ctors()
+    r5 = build_r5(); build_ctors_r5()
     os.makedirs(OUT, exist_ok=True)
     for f in os.listdir(OUT):
         if f.endswith(".rs"): os.remove(os.path.join(OUT, f))
@@ -460,32 +862,36 @@ def main():
     table = []
     for i, l in enumerate(LITS):
         m = i % NMOD
-        mods[m].append(f"#[inline(never)] pub fn r{i}() -> Obs {{ obs(|| {l['macro']}) }}\n"
+        body = l['run'] or f"obs(|| {l['macro']})"
+        mods[m].append(f"#[inline(never)] pub fn r{i}() -> Obs {{ {body} }}\n"
                        f"#[inline(never)] pub fn d{i}() -> String {{ format!(\"{{:?}}\", {l['dbg']}) }}\n")
         table.append(f"    Lit {{ id: {i}, ty: {rs_str(l['ty'])}, kind: {rs_str(l['kind'])}, form: {rs_str(l['form'])}, scope: {rs_str(l['scope'])}, "
                      f"note: {rs_str(l['note'])}, src: {rs_str(l['macro'])}, shape: {rs_list(l['shape'])}, nest_shape: {rs_list(l['nest_shape'])}, "
-                     f"leaves: {rs_strs(l['leaves'])}, truth: {rs_strs(l['truth'])}, run: m{m:02}::r{i}, dbg: m{m:02}::d{i}, canon: canon::<{l['ty']}> }},\n")
+                     f"leaves: {rs_strs(l['leaves'])}, truth: {rs_strs(l['truth'])}, toks: {rs_strs(l['toks'])}, run: m{m:02}::r{i}, dbg: m{m:02}::d{i}, canon: canon::<{l['ty']}> }},\n")
     ctab = []
-    for j, (ty, mac, fun) in enumerate(CTORS):
+    for j, ct in enumerate(CTORS):
+        ty, mac, fun = ct[:3]
         m = (len(LITS) + j) % NMOD
-        mods[m].append(f"#[inline(never)] pub fn c{j}() -> (Obs, Obs) {{ (obs::<{ty}, _>(|| {mac}), obs::<{ty}, _>(|| {fun})) }}\n")
+        mexpr = ct[3] if len(ct) > 3 else f"obs::<{ty}, _>(|| {mac})"
+        mods[m].append(f"#[inline(never)] pub fn c{j}() -> (Obs, Obs) {{ ({mexpr}, obs::<{ty}, _>(|| {fun})) }}\n")
         ctab.append(f"    Ctor {{ id: {j}, ty: {rs_str(ty)}, mac: {rs_str(mac)}, fun: {rs_str(fun)}, run: m{m:02}::c{j} }},\n")
     for m in range(NMOD):
         with open(os.path.join(OUT, f"m{m:02}.rs"), "w") as f:
-            f.write("// generated by harness/gen_c18_literals.py — do not edit\n#![allow(clippy::all)]\nuse super::*;\n\n" + "".join(mods[m]))
+            f.write("// generated by harness/gen_c18_literals.py — do not edit\n#![allow(clippy::all, unused_mut, unused_parens, unused_variables, unused_assignments)]\nuse super::*;\n\n" + "".join(mods[m]))
     with open(os.path.join(OUT, "mod.rs"), "w") as f:
         f.write("// generated by harness/gen_c18_literals.py — do not edit\n"
                 "//! the literal programs of C18: every entry expands the real macros at compile time\n"
-                "#![allow(unused_imports, clippy::all)]\nuse super::{obs, canon, Obs};\nuse arrharness::*;\n\n")
+                "#![allow(unused_imports, clippy::all)]\nuse super::{obs, canon, once, Obs};\nuse arrharness::*;\n\n")
         for m in range(NMOD): f.write(f"pub mod m{m:02};\n")
         f.write("\npub struct Lit { pub id: usize, pub ty: &'static str, pub kind: &'static str, pub form: &'static str, pub scope: &'static str,\n"
                 "    pub note: &'static str, pub src: &'static str, pub shape: &'static [usize], pub nest_shape: &'static [usize],\n"
-                "    pub leaves: &'static [&'static str], pub truth: &'static [&'static str], pub run: fn() -> Obs, pub dbg: fn() -> String,\n"
+                "    pub leaves: &'static [&'static str], pub truth: &'static [&'static str], pub toks: &'static [&'static str], pub run: fn() -> Obs, pub dbg: fn() -> String,\n"
                 "    pub canon: fn(&str) -> Option<String> }\n\n"
                 "pub struct Ctor { pub id: usize, pub ty: &'static str, pub mac: &'static str, pub fun: &'static str, pub run: fn() -> (Obs, Obs) }\n\n")
         f.write("pub static LITS: &[Lit] = &[\n" + "".join(table) + "];\n\n")
         f.write("pub static CTORS: &[Ctor] = &[\n" + "".join(ctab) + "];\n")
     print(f"{len(LITS)} literals, {len(CTORS)} constructor pairs, {NMOD} modules -> {OUT}")
+    print(f"round 5: {r5[0]} f32 tokens next to a midpoint ({r5[1]} of them double-rounding witnesses), {r5[2]} literals with impure items")
 
 
 if __name__ == "__main__":
